@@ -3,6 +3,7 @@ package main
 import (
 	"bytes"
 	"context"
+	"errors"
 	"fmt"
 	"runtime"
 	"sort"
@@ -354,6 +355,30 @@ func (r *concRun) deliver(items [][2]string, version int) {
 	r.trace = append(r.trace, obj{"s": "deliver", "full": true, "items": ij, "woke": woke})
 }
 
+// streamFail: the stream breaks with a transient error and the client reconnects. Lookups that wait are not concerned:
+// the response that supplies them can still arrive on the new stream before their deadline.
+func (r *concRun) streamFail() {
+	before := r.selecting()
+	r.w.ads.mu.Lock()
+	n0 := len(r.w.ads.streams)
+	r.w.ads.mu.Unlock()
+	r.w.feedErr(errors.New("verif: connection reset by peer"))
+	r.w.waitFor(func() bool {
+		r.w.ads.mu.Lock()
+		defer r.w.ads.mu.Unlock()
+		return len(r.w.ads.streams) > n0
+	}, 5*time.Second)
+	r.w.settle()
+	woke := []interface{}{}
+	for _, id := range before {
+		r.waitParked(id, 25*time.Millisecond)
+		if p, _, done, _ := r.snapshot(id); p != 0 || done {
+			woke = append(woke, []interface{}{id, p})
+		}
+	}
+	r.trace = append(r.trace, obj{"s": "streamfail", "woke": woke})
+}
+
 func (r *concRun) cancelT(id int) {
 	r.s.mu.Lock()
 	t := r.s.threads[id]
@@ -478,6 +503,8 @@ func runSchedule(c *ctx, sc concScenario, actions []string, emit bool) (avail []
 			nm = a[1:]
 			evicted[nm] = true
 			r.evict(nm)
+		case 'F': // the stream fails and is re-established (only in fixed schedules)
+			r.streamFail()
 		case 'S': // real time passes (only in fixed schedules)
 			fmt.Sscanf(a, "S%d", &k)
 			time.Sleep(time.Duration(k) * time.Millisecond)
@@ -765,7 +792,11 @@ func init() {
 				defer runtime.GOMAXPROCS(old)
 				runSchedule(c, stale, []string{"T0", "T0", "T0", "D", "S480", "T0", "T1", "T1", "T1", "D"}, true)
 			}()
-			c.count("fixed.schedules", 3)
+			// a transient stream failure while lookups wait (one in the select, one parked before it): the response arrives on
+			// the new stream, both must return it
+			sf := concScenario{names: []string{"c1", "c1", "c2"}, updates: [][][2]string{{{"c1", "c1#1"}, {"c2", "c2#1"}}}}
+			runSchedule(c, sf, []string{"T0", "T0", "T0", "T1", "T1", "F", "T1", "T2", "T2", "T2", "F", "D"}, true)
+			c.count("fixed.schedules", 4)
 		}
 		for i, sc := range scen {
 			if c.noEnum {
